@@ -205,17 +205,17 @@ type lruItem struct {
 }
 
 func (dm *DMap) evictKeyWithLRU(e *env) error {
-	var idx = 1
 	var items []lruItem
 
 	// Warning: fragment is already locked by DMap.Put. Be sure about that before editing this function.
 
 	// Pick random items from the distributed map and sort them by accessedAt.
 	e.fragment.storage.Range(func(hkey uint64, e storage.Entry) bool {
-		if idx >= dm.config.lruSamples {
+		// Take lruSamples items. The counter used to start at 1: one item less than configured
+		// was sampled and LRUSamples=1 found nothing to evict, which failed the Put.
+		if len(items) >= dm.config.lruSamples {
 			return false
 		}
-		idx++
 		i := lruItem{
 			HKey:       hkey,
 			LastAccess: e.LastAccess(),
